@@ -79,7 +79,11 @@ var (
 	m      map[string]int
 	mk     map[K]*B
 	iss    [][]int
+	mi     map[int16]bool
+	mi2    map[int8]string
+	k1     *K
 )
+func itoa8(i int8) string                   { return "" }
 
 func isPos(i int) bool                      { return i > 0 }
 func itoa(i int) string                     { return "" }
@@ -92,8 +96,8 @@ func tw(s string) ([]int, error)            { return nil, nil }
 `
 
 // names declared or called in the user file (typesMap's reserved set is the set of CALLED user functions)
-var userIdents = []string{"A", "B", "K", "a1", "a2", "b1", "b2", "ints", "strs", "bs", "m", "mk", "iss",
-	"isPos", "itoa", "f2", "c2", "g0", "g1", "h1", "tw", "use", "i", "a", "b", "s"}
+var userIdents = []string{"A", "B", "K", "a1", "a2", "b1", "b2", "ints", "strs", "bs", "m", "mk", "iss", "mi", "mi2", "k1", "itoa8",
+					"isPos", "itoa", "f2", "c2", "g0", "g1", "h1", "tw", "use", "i", "a", "b", "s"}
 var calledUserFuncs = []string{"f2"} // c2 calls f2: the only call of a user function in the package
 
 var catalogue = []item{
@@ -134,6 +138,12 @@ var catalogue = []item{
 	{"mem", "h1", "_ = %s"},
 	{"apply", `f2, "x"`, "_ = %s"},
 	{"traverse", "tw, strs", "_, _ = %s"},
+	// nested derive calls (@plugin( is a call of that plugin, named <its prefix>In<suffix>): the
+	// outer call's argument type is only known after a first generation pass
+	// (each inner call is the only call of its plugin at its argument type: two names for one type are refused)
+	{"sort", "@keys(mi)", "_ = %s"},
+	{"fmap", "itoa8, @keys(mi2)", "_ = %s"},
+	{"equal", "@clone(k1), k1", "_ = %s"},
 }
 
 var suffixPool = []string{"", "A", "Of", "_x", "2", "X1", "s", "ed", "_", "Ptr"}
@@ -227,7 +237,29 @@ func (ps pkgSpec) render(eff []Plugin) (src string, names []string, why string) 
 		}
 		seen[n] = true
 		names = append(names, n)
-		fmt.Fprintf(&b, "\t"+c.item.use+"\n", n+"("+c.item.args+")")
+		args := c.item.args
+		for strings.Contains(args, "@") {
+			i := strings.Index(args, "@")
+			j := i + strings.Index(args[i:], "(")
+			inner := args[i+1 : j]
+			ipf, ok := prefix[inner]
+			if !ok {
+				return "", nil, "plugin " + inner + " is not in the table"
+			}
+			in := ipf + "In" + c.suffix
+			if !validIdent(in) || user[in] || (seen[in] && !strings.HasPrefix(in, ipf+"In")) {
+				return "", nil, "call name " + in + " is not usable"
+			}
+			if got := longest(eff, in); got != inner {
+				return "", nil, fmt.Sprintf("call name %s of %s is claimed by the longer prefix of %s", in, inner, got)
+			}
+			if !seen[in] {
+				seen[in] = true
+				names = append(names, in)
+			}
+			args = args[:i] + in + args[j:]
+		}
+		fmt.Fprintf(&b, "\t"+c.item.use+"\n", n+"("+args+")")
 	}
 	b.WriteString("}\n")
 	return b.String(), names, ""
